@@ -5,6 +5,7 @@ aggregation, delta-debugging.  Pure Python (imports nothing from qs) so that bot
 History = ops joined by ';'.  Op text (same as ocaml/c16/driver.ml):
   A ch prio name|- tmo|-   P c chs|-   L   F c jid res|- err|-   K c jids|-   T dt   D c   C k
   W c jid   I jid   S jid v   X   R (pickle round trip of the db = restart; C18 only)
+  U dt (clock advances, no handletimeouts sweep)   Y jids (rpc_qdrop)   G (watchdog: dropdead)
 jid = a<n> (integer id chosen by the server) | n<k> (client supplied string id chr(65+k))."""
 import json
 
@@ -21,7 +22,7 @@ FIELDS = {
 MONITORS = {
     "C16": {"conservation", "addressable", "handout"},
     "C17": {"eligible", "never_done", "min_first", "final", "wait", "readd", "counters"},
-    "C18": {"restore", "conservation", "addressable", "eligible", "never_done", "min_first", "final", "wait"},
+    "C18": {"restore", "conservation", "addressable", "eligible", "never_done", "min_first", "final", "wait", "id_reuse", "timeout"},
 }
 
 
@@ -47,9 +48,13 @@ def gen_history(rng, maxlen=12, prop="C16", restarts=0):
             c.append(rng.choice(["a9", "n3"]))
         return rng.choice(c)
 
-    w = {"A": 24, "P": 22, "L": 16, "F": 9, "K": 6, "T": 6, "D": 8, "C": 3, "W": 2, "I": 1, "S": 1, "X": 2}
+    w = {"A": 24, "P": 22, "L": 16, "F": 9, "K": 6, "T": 6, "D": 8, "C": 3, "W": 2, "I": 1, "S": 1, "X": 2, "U": 2}
     if prop == "C17":
-        w.update({"W": 6, "X": 5, "F": 12, "K": 8, "T": 8, "S": 2})
+        w.update({"W": 7, "X": 5, "F": 12, "K": 8, "T": 8, "S": 2, "U": 5})
+    if prop == "C18":
+        # rpc_qdrop and the watchdog are outside C16/C17's alphabets; C18 needs them to reach "the newest job has
+        # left id2job before the save"
+        w.update({"W": 5, "F": 12, "T": 7, "U": 4, "Y": 5, "G": 4})
     kinds = list(w)
     weights = [w[k] for k in kinds]
     for _ in range(n):
@@ -92,6 +97,12 @@ def gen_history(rng, maxlen=12, prop="C16", restarts=0):
             ops.append("S %s %d" % (some_jid(), rng.choice([1, 2])))
         elif k == "X":
             ops.append("X")
+        elif k == "U":
+            ops.append("U %d" % rng.choice([1, 6, 6, 11, 11, 4000]))
+        elif k == "Y":
+            ops.append("Y %s" % ",".join(some_jid() for _ in range(rng.choice([1, 1, 2]))))
+        elif k == "G":
+            ops.append("G")
     for _ in range(restarts):
         ops.insert(rng.randint(0, len(ops)), "R")
     return ops
@@ -102,16 +113,24 @@ def canon_out(out):
     observable (each released client just returns): sort runs of `released` items."""
     res = []
     run = []
+
+    def flush():
+        # clients released from a DROPPED job: the first one deletes the id, the others get a KeyError; which client is
+        # first is the (unobservable, see above) link order of the event, so only the multiset is compared
+        if any(o[0] == "keyerr" for o in run):
+            for o in run:
+                if o[0] == "released":
+                    o[1] = -1
+        res.extend(sorted(run, key=lambda x: (x[0], x[2][0], x[1]) if x[0] == "released" else (x[0], 0, 0)))
+        del run[:]
+
     for o in out:
-        if o and o[0] == "released":
-            run.append(o)
+        if o and (o[0] == "released" or (o[0] == "keyerr" and run)):
+            run.append(list(o))
         else:
-            if run:
-                res.extend(sorted(run, key=lambda x: (x[2][0], x[1])))
-                run = []
+            flush()
             res.append(o)
-    if run:
-        res.extend(sorted(run, key=lambda x: (x[2][0], x[1])))
+    flush()
     return res
 
 
